@@ -1237,6 +1237,13 @@ def natural_problems(seed, quick):
         1e-3, 1e-3, 2.0 ** -9)
     add("example-revheun-scalar-0.001", "reversible_heun", "scalar", "float64", ("example",), [0.0, 0.3, 1.0], 0.5, 1e-3, 1e-3,
         2.0 ** -8)
+    # grids that start at a negative, non-dyadic time and end just after zero, or are taken in one long clipped step:
+    # ts[-1] - curr_t is then inexact in floating point (the clip of the last step must still land exactly on ts[-1])
+    add("neg-start-euler", "euler", "diagonal", "float64", ("linear", 2.0, 0.5, 0.0), [-1.0, -0.37, 0.01], 0.25, 1e-3, 1e-3, 1e-4)
+    add("neg-start-heun", "heun", "additive", "float64", ("example",), [-0.5, 0.003], 0.2, 1e-2, 1e-2, 1e-4)
+    add("neg-one-step-midpoint", "midpoint", "additive", "float64", ("example",), [-0.1, 0.2], 0.5, 1e-1, 1e-1, 1e-3)
+    add("neg-one-step-srk", "srk", "diagonal", "float64", ("example",), [-0.7, 0.3], 2.0, 5e-1, 5e-1, 1e-3)
+    add("neg-start-revheun", "reversible_heun", "diagonal", "float64", ("example",), [-2.0, -0.9, 0.02], 0.5, 1e-2, 1e-2, 1e-3)
     # dt_min hit on purpose: coarse dt_min with a tight tolerance
     add("dtmin-hit-euler", "euler", "diagonal", "float64", ("linear", 20.0, 1.0, 0.0), [0.0, 0.33, 1.0], 0.25, 1e-4, 1e-4, 2.0 ** -4)
     add("dtmin-hit-revheun", "reversible_heun", "diagonal", "float64", ("example",), [0.0, 0.5, 1.0], 0.5, 1e-4, 1e-6, 2.0 ** -3)
